@@ -170,13 +170,23 @@ def main():
         case_ = body['case']
         if isinstance(case_, dict) and case_.get('no_failing_input_found') and isinstance(case_.get('first_case'), dict):
             case_ = case_['first_case']       # a broken correspondence: the replay is the first case on which model and code differed
-        still = mod.replay(case_)
-        if still:
+        try:
+            still = mod.replay(case_)
+        except Exception as e:  # noqa: BLE001 -- a replay file of another layer than the module's single-case replays
+            still = 're-run (%s)' % type(e).__name__
+        if isinstance(still, str) and still.startswith('re-run'):
+            # the case is part of a generated history (a long-lived manager, a program): it is regenerated from the seed, so the replay IS
+            # the check under the same VERIF_SEED / tier -- run it and let its verdict stand
+            print('replay: this case is regenerated from the seed; running the check (tier %s, seed %d)' % (tier, seed), flush=True)
+            still = None
+            a.replay = None
+        elif still:
             print('replay still fails: %s' % still)
             print('VIOLATION property=%s replay=%s' % (pid, a.replay))
             sys.exit(1)
-        print('replay passes on the current tree')
-        sys.exit(0)
+        if a.replay:
+            print('replay passes on the current tree')
+            sys.exit(0)
 
     gate = proof_gate(pid, tier == 'thorough') if build_ok else {'ok': False, 'problems': ['build failed: ' + out[-400:]], 'theorems': [], 'assumptions': {}}
     rep.proof = gate
